@@ -1,8 +1,8 @@
 (* Run/C27.v — case decoder / observable encoder for the C27 correspondence.
 
-   case  (kind fork env pre tx)
+   case  (kind fork env pre tx [annotation ...])
      kind  0 = runtime.Call, 1 = runtime.Create
-     fork  0 = Cancun, 1 = Prague, 2 = Osaka
+     fork  0 = Cancun, 1 = Prague, 2 = Osaka, 3 = Osaka + EIP-8024 (DUPN/SWAPN/EXCHANGE)
      env   (origin gasprice coinbase time number prevrandao chainid basefee blobbasefee (blobhash ...))
      pre   ((addr balance nonce x<code> ((key value) ...)) ...)
      tx    kind 0: (to value x<input> gas)      kind 1: (value x<initcode> gas)
@@ -64,10 +64,10 @@ Definition enc_result (r : tx_result) : sx :=
 
 Definition C27_run (c : sx) : sx :=
   match c with
-  | SL [SI kind; SI fk;
+  | SL (SI kind :: SI fk ::
         SL [SI origin; SI gasprice; SI coinbase; SI time; SI number; SI randao; SI chainid;
-            SI basefee; SI blobbasefee; bh];
-        pre; tx] =>
+            SI basefee; SI blobbasefee; bh] ::
+        pre :: tx :: _) =>      (* trailing elements: annotations for the Go-side oracle *)
       match sx_list_of sx_N bh, sx_list_of dec_account pre with
       | Some blobhashes, Some accts =>
           let accounts := fold_left (fun m x => nm_set m (fst x) (snd x)) accts [] in
@@ -75,6 +75,7 @@ Definition C27_run (c : sx) : sx :=
           let '(fork, pcs) := match fk with
                               | 1%Z => (prague, prague_precompiles)
                               | 2%Z => (osaka, osaka_precompiles)
+                              | 3%Z => (osaka8024, osaka_precompiles)
                               | _ => (cancun, cancun_precompiles)
                               end in
           let mk gas := mk_env fork (Z.to_N origin) (Z.to_N gasprice) (Z.to_N coinbase) (Z.to_N time)
